@@ -302,6 +302,8 @@ class SymEnv(flow.Client):
             if truth and isinstance(a, ast.Compare) and len(a.ops) == 1 and isinstance(a.ops[0], (ast.Is, ast.Eq)) \
                     and isinstance(a.comparators[0], ast.Constant) and isinstance(a.comparators[0].value, bool):
                 new_facts.add((self.ntext(a.left), a.comparators[0].value))      # `e is True` holds: e holds
+            if pure and any((k, not v) in facts for k, v in new_facts):
+                continue            # contradicts what this world assumed earlier
             if self.keep_fact is not None:
                 new_facts = {nf for nf in new_facts if self.keep_fact(nf[0])}
             out.add((env_t, facts | new_facts))
